@@ -996,6 +996,21 @@ for _ty in ("u8", "char"):
               reason="ASCII classification predicate (std documentation); folded on constants")(_ascii_pred)
 
 
+@model("core::slice::<impl [T]>::split", reason="split(pred): an iterator over the maximal runs between elements matching pred (uninterpreted, carries its source and predicate)")
+def m_slice_split(px, st, fr, ev):
+    seq = seq_of(px, st, ev["args"][0])
+    return val(("split", seq, ev["args"][1]))
+
+
+@model("core::slice::<impl [T]>::contains", reason="contains(&x): an uninterpreted two-valued predicate of (sequence, element)")
+def m_slice_contains(px, st, fr, ev):
+    seq = seq_of(px, st, ev["args"][0])
+    x = deref_val(px, st, ev["args"][1], depth=2)
+    t = ("contains", seq, x)
+    px.mark_bool(t)
+    return val(st.cons.lookup(t))
+
+
 # ------------------------------------------------------------------ searching / slicing
 
 @model("core::str::<impl str>::find", reason="find(ch): Some(h) with h < len(s), s[h] is the first match; None if absent")
